@@ -3,7 +3,7 @@
    `reachable c s` = s is the state after SOME event list accepted by the parallel_safe transition system of
    configuration c (size, instances, argument entries, failing subset): all interleavings of the main thread and
    the member threads, with no bound on anything. *)
-From CF Require Import Common.Bytes C19.Model C19.Proofs C19.Proofs_b C19.Proofs_c C19.Proofs_d C19.Proofs_e C19.Proofs_f C19.Proofs_g C19.Proofs_h.
+From CF Require Import Common.Bytes C19.Model C19.Proofs C19.Proofs_b C19.Proofs_c C19.Proofs_d C19.Proofs_e C19.Proofs_f C19.Proofs_g C19.Proofs_h C19.Proofs_i.
 From Coq Require Import Permutation.
 Open Scope nat_scope.
 
@@ -263,3 +263,27 @@ Theorem C19_root_cause_variant_refuted :
                        run_reporting (report_id cause) errs = Some 1 /\ In 1 errs.
 Proof. exact root_cause_variant_refuted. Qed.
 Print Assumptions C19_root_cause_variant_refuted.
+
+(* ---- Wave 14: bookkeeping of the started threads.  parallel_safe keeps them in a list and joins every element (the
+   transition system above: `joined` runs over 0..n-1, C19_parallel_safe_waits_all).  Also: the member dictionary of a
+   swarm with distinct URIs is exactly the URIs in order with their instances. *)
+Theorem C19_cfs_distinct : forall uris, NoDup uris -> cfs uris = combine uris (seq 0 (List.length uris)).
+Proof. exact cfs_distinct. Qed.
+Print Assumptions C19_cfs_distinct.
+
+Theorem C19_joined_equals_started : forall uris, joined_list uris = seq 0 (List.length uris).
+Proof. exact joined_equals_started. Qed.
+Print Assumptions C19_joined_equals_started.
+
+(* a map keyed by a name derived from the URI joins every thread only if the NAMES are distinct ... *)
+Theorem C19_joined_by_name_distinct : forall name uris,
+  NoDup (map name uris) -> joined_by_name name uris = seq 0 (List.length uris).
+Proof. exact joined_by_name_distinct. Qed.
+Print Assumptions C19_joined_by_name_distinct.
+
+(* ... distinct URIs do not guarantee that: refutation with two URIs sharing the name (the earlier thread is started,
+   never joined) *)
+Theorem C19_joined_by_name_refuted :
+  exists name uris, NoDup uris /\ ~ In 0 (joined_by_name name uris) /\ In 0 (joined_list uris).
+Proof. exact joined_by_name_refuted. Qed.
+Print Assumptions C19_joined_by_name_refuted.
